@@ -96,6 +96,25 @@ def _other_first(case, f):
         pass
 
 
+def _build(case, spec):
+    """The scaling function of the case; for the parametrised scales optionally built with OTHER parameters, used once in
+    both directions, and then given its parameters by assignment (they are documented public attributes)."""
+    if case.get("reassign") and spec["alias"] in ("linear", "octave"):
+        first = dict(spec, low_hz=spec["low_hz"] * 0.5 + 7.0)
+        if spec["alias"] == "linear":
+            first["slope_hz"] = spec["slope_hz"] * 4.0
+        sc = build_scale(first)
+        try:
+            sc.scale_to_hertz(sc.hertz_to_scale(first["low_hz"] + 3.0))
+        except Exception:  # noqa - only the judged queries matter
+            pass
+        sc.low_hz = spec["low_hz"]
+        if spec["alias"] == "linear":
+            sc.slope_hz = spec["slope_hz"]
+        return sc
+    return build_scale(spec)
+
+
 def _as_number(case, v):
     """Whole numbers may arrive as Python ints or numpy scalars."""
     t = case.get("numtype", "float")
@@ -123,7 +142,7 @@ def _as_number(case, v):
 
 def check_roundtrip_hz(case):
     spec, f = case["scale"], _clamp_f(case["scale"], case["f"])
-    sc = build_scale(spec)
+    sc = _build(case, spec)
     f = _snap_octave(case, spec, f)
     _other_first(case, f)
     f = _as_number(case, f)
@@ -143,7 +162,7 @@ def check_roundtrip_hz(case):
 
 def check_roundtrip_scale(case):
     spec, u = case["scale"], case["u"]
-    sc = build_scale(spec)
+    sc = _build(case, spec)
     lo = _lo(spec)
     s_lo = float(call("hertz_to_scale", sc.hertz_to_scale, lo))
     s_hi = float(call("hertz_to_scale", sc.hertz_to_scale, F_MAX))
@@ -175,7 +194,7 @@ def check_roundtrip_scale(case):
 
 def check_monotone(case):
     spec = case["scale"]
-    sc = build_scale(spec)
+    sc = _build(case, spec)
     f1 = _snap_octave(case, spec, _clamp_f(spec, case["f"]))
     gap = max(case["gap"] * max(f1, 1.0), 1e-9 * max(f1, 1.0))
     f2 = f1 + gap
@@ -208,7 +227,7 @@ def _max_slope(spec, f):
 
 def check_continuity(case):
     spec = case["scale"]
-    sc = build_scale(spec)
+    sc = _build(case, spec)
     f = _clamp_f(spec, case["f"])
     lo = _lo(spec)
     d = case["eps"] * max(f, 1e-3)
@@ -247,7 +266,7 @@ def _mp_bark(f):
 
 def check_published(case):
     spec, f = case["scale"], case["f"]
-    sc = build_scale(spec)
+    sc = _build(case, spec)
     with mpmath.workdps(40):
         ref = float(_mp_mel(f) if spec["alias"] == "mel" else _mp_bark(f))
     got = float(call("hertz_to_scale", sc.hertz_to_scale, f))
@@ -287,12 +306,13 @@ def clauses(tier):
     oth = st.one_of(st.none(), st.none(), st.sampled_from([0.5, 7.0, 100.0]))
     near = st.one_of(st.none(), st.none(), st.fixed_dictionaries({
         "k": st.integers(1, 16), "e": st.one_of(log_uniform(-14, -3), log_uniform(-14, -3).map(lambda v: -v))}))
-    spec_f = lambda: st.fixed_dictionaries({"scale": _scales(), "f": _freqs(), "numtype": nt, "other": oth, "near_octave": near})  # noqa
+    spec_f = lambda: st.fixed_dictionaries({"scale": _scales(), "f": _freqs(), "numtype": nt, "other": oth, "near_octave": near,  # noqa
+                                            "reassign": st.sampled_from([False, False, True])})
     return [
         Clause(
             "roundtrip_hz", check_roundtrip_hz,
             "non-trivial = f > 0; distinct by (scale parameters, f)",
-            spec_f, quick=4500, thorough=400000,
+            spec_f, quick=3200, thorough=400000,
         ),
         Clause(
             "roundtrip_scale", check_roundtrip_scale,
@@ -314,13 +334,13 @@ def clauses(tier):
                     }
                 ),
             ),
-            quick=3800, thorough=300000,
+            quick=2700, thorough=300000,
         ),
         Clause(
             "monotone", check_monotone,
             "ordered pair f1 < f2 = f1 + gap (relative gap 1e-9..1e-1); every pair is non-trivial",
             lambda: st.fixed_dictionaries({"scale": _scales(), "f": _freqs(), "gap": log_uniform(-9, -1), "near_octave": near}),
-            quick=3800, thorough=300000,
+            quick=2700, thorough=300000,
         ),
         Clause(
             "continuity", check_continuity,
@@ -332,7 +352,7 @@ def clauses(tier):
                     "eps": log_uniform(-13, -4),
                 }
             ),
-            quick=3000, thorough=200000,
+            quick=2200, thorough=200000,
         ),
         Clause(
             "published", check_published,
@@ -340,7 +360,7 @@ def clauses(tier):
             lambda: st.fixed_dictionaries(
                 {"scale": st.sampled_from([{"alias": "mel"}, {"alias": "bark"}]), "f": _freqs()}
             ),
-            quick=2000, thorough=60000,
+            quick=1500, thorough=60000,
         ),
         Clause(
             "params", check_params,
